@@ -338,3 +338,59 @@ Proof.
   split; [repeat (apply Forall2_cons; [vm_compute; reflexivity|]); apply Forall2_nil|].
   split; vm_compute; reflexivity.
 Qed.
+
+(* ---- (b, -lazy) makeSingleTrackSegmentsLazyWrite ----
+   copyMediaData (containing chunks from stsc, chunk offset from co64/stco plus the sizes of the chunk's samples
+   before the interval, one Seek + CopyN per chunk) writes exactly the bytes of samples a..b in sample order,
+   for every consistent track pointing into the file that carries one chunk-offset box *)
+From V.c11 Require Import C11CopyProofs C11LazyProofs.
+Theorem C11_copy_media_data : forall (f : pfile) (tb : tables),
+  C09Spec.consistent tb = true -> data_ok f tb = true -> one_offset_box tb = true ->
+  forall a b, 1 <= a -> a <= b -> b <= nsamples tb ->
+  copy_media_data f tb a b = Ok (S_data f tb a b).
+Proof. exact copy_media_data_ok. Qed.
+Print Assumptions C11_copy_media_data.
+
+(* seg_track_lazy: per interval GetSamplesForInterval (metadata only), CreateFragment, AddSampleToTrack with the
+   decode time of the interval's first sample, Fragment.Encode (moof + mdat header), copyMediaData after it.
+   Reading every (fragment, copied bytes) pair back gives the expansion of the track, as in the in-memory case
+   (C05_roundtrip_single_modes, metadata-only mode; the tfdt the reader starts from is shown to be the decode time
+   of the interval's first sample). *)
+Theorem C11_segmenter_lazy_track_end_to_end :
+  forall opt (f : pfile) (tb : tables) T pos0 (tx : C05Model.trex) ivs outs,
+  C09Spec.consistent tb = true -> data_ok f tb = true -> one_offset_box tb = true -> tx_track tx = T ->
+  concat (map C11Model.range ivs) = seqN1 (nsamples tb) ->
+  seg_track_lazy opt f tb T ivs = Ok outs ->
+  Forall (fun p => lazy_guard pos0 p = true) outs ->
+  exists res, read_all (fun p => read_back tx pos0 (snd p) (fst p)) outs = Ok res /\
+              map Some (concat res) = expansion f tb /\ Forall (fun o => o <> []) res.
+Proof. exact seg_track_lazy_end_to_end. Qed.
+Print Assumptions C11_segmenter_lazy_track_end_to_end.
+
+Theorem C11_segmenter_lazy_end_to_end : forall (f : pfile) (trs : list itrack) d ivss,
+  Forall (fun t => C09Spec.consistent (snd t) = true /\ data_ok f (snd t) = true /\ one_offset_box (snd t) = true) trs ->
+  segment_plan (map itrack_of trs) d = Ok ivss ->
+  Forall2 (fun t ivs => forall opt T pos0 (tx : C05Model.trex) outs,
+             tx_track tx = T -> seg_track_lazy opt f (snd t) T ivs = Ok outs ->
+             Forall (fun p => lazy_guard pos0 p = true) outs ->
+             exists res, read_all (fun p => read_back tx pos0 (snd p) (fst p)) outs = Ok res /\
+                         map Some (concat res) = expansion f (snd t) /\
+                         Forall (fun o => o <> []) res) trs ivss.
+Proof. exact plan_lazy_end_to_end. Qed.
+Print Assumptions C11_segmenter_lazy_end_to_end.
+
+(* satisfiable: the same file decoded lazily *)
+Definition ex_e2e_lazy_file : pfile := mkPfile (pf_bytes ex_e2e_file) 8 322 true.
+Example C11_segmenter_lazy_end_to_end_example :
+  data_ok ex_e2e_lazy_file ex_e2e_tb = true /\ one_offset_box ex_e2e_tb = true /\
+  exists outs, seg_track_lazy false ex_e2e_lazy_file ex_e2e_tb 1 [(1, 4); (5, 7)] = Ok outs /\
+               forallb (lazy_guard 24) outs = true /\
+               map (fun p => lenN (snd p)) outs = [22; 27] /\
+               option_map (map (map fs_dts))
+                 (match read_all (fun p => read_back (C05Model.mkTrex 1 0 0 0) 24 (snd p) (fst p)) outs
+                  with Ok o => Some o | _ => None end)
+               = Some [[0; 10; 20; 30]; [50; 55; 60]].
+Proof.
+  split; [vm_compute; reflexivity|]. split; [reflexivity|].
+  eexists. split; [vm_compute; reflexivity|]. split; [vm_compute; reflexivity|]. split; vm_compute; reflexivity.
+Qed.
